@@ -83,6 +83,11 @@ def catalogue():
     add("stddev", {"R": 4, "nobj": 2}, [("optimizer", {**base(4, objectives={"weights": [0.8, 0.2], "function_estimators": [0, 1]}),
                                                        "function_estimators": [{"method": "mean"}, {"method": "stddev"}]})])
     add("failures_tolerated", {"R": 4, "failcalls": {2: [1], 3: [0, 2]}}, [("optimizer", base(4, realizations={"realization_min_success": 2}))])
+    # ... with configured but unreferenced realization filters whose windows the failures leave empty: nobody uses them
+    add("failures_tolerated_unused_filters", {"R": 4, "failcalls": {2: [1], 3: [0, 2]}},
+        [("optimizer", {**base(4, realizations={"realization_min_success": 2}),
+                        "realization_filters": [{"method": "sort-objective", "options": {"sort": [0], "first": 3, "last": 3}},
+                                                {"method": "sort-objective", "options": {"sort": [0], "first": 2, "last": 3}}]})])
     add("failure_too_few", {"R": 3, "failcalls": {3: [0, 1]}}, [("optimizer", base(3, realizations={"realization_min_success": 2}))])
     add("random_failures", {"R": 5, "randfail": 0.15}, [("optimizer", base(5, realizations={"realization_min_success": 3},
                                                                              gradient={"perturbation_min_success": 2}))])
@@ -99,6 +104,13 @@ def catalogue():
     add("de_parallel", {"R": 2}, [("optimizer", base(2, variables={"lower_bounds": [0.0] * 3, "upper_bounds": [2.0] * 3},
                                                      optimizer={"method": "differential_evolution", "max_functions": 10, "parallel": True,
                                                                 "options": {"seed": 2, "popsize": 2, "maxiter": 2}}))], batch=6)
+    # a NaN-tolerant method with realization_min_success = 0: an evaluation in which every realization fails does not end the
+    # run, however the method is spelled
+    for tag, spelled in (("bare", "differential_evolution"), ("qualified", "scipy/differential_evolution"), ("capitals", "SciPy/Differential_Evolution")):
+        add(f"de_all_failed_tolerated_{tag}", {"R": 2, "failcalls": {2: [0, 1]}},
+            [("optimizer", base(2, variables={"lower_bounds": [0.0] * 3, "upper_bounds": [2.0] * 3},
+                                realizations={"realization_min_success": 0},
+                                optimizer={"method": spelled, "max_functions": 8, "options": {"seed": 2, "popsize": 2, "maxiter": 2}}))])
     add("user_abort", {"R": 2}, [("optimizer", base(2)), ("optimizer", base(2))], abort_at_eval=3)
     add("sequential", {"R": 2}, [("optimizer", base(2, optimizer={"max_functions": 4})), ("optimizer", base(2, optimizer={"max_functions": 4}))])
     add("evaluator_step", {"R": 3}, [("evaluator", {k: v for k, v in base().items() if k != "optimizer"})])
